@@ -19,7 +19,8 @@ RULE = ("Hypothesis generates a directory tree (depth <= 4, fan-out <= 4; files,
         "whose input is that directory as a tree node ('tree/') or a node marked is-directory-structure, with or "
         "without content-exclusion-patterns (literal names, '*.ext', 'pre*', '?x'), and a history of 1-4 single or "
         "compound edits -- add / remove / rename / retype at any depth, content edit in place, mtime-only touch, "
-        "chmod -- each followed by a build in a NEW process; every edit (and the parent directory when an entry is "
+        "chmod, and (a quarter of the histories) one edit of the node's DECLARATION between builds: tree <-> structure "
+        "or another pattern list, after which the new declaration's semantics are demanded -- each followed by a build in a NEW process; every edit (and the parent directory when an entry is "
         "added or removed) is stamped from the logical clock, so it is observable by construction. Reference: a "
         "Python walk of the tree hiding names that libc fnmatch(pattern, name, 0) matches at every level. "
         "Three-valued oracle. Tree node: MUST re-run if the visible set of (path, type) changed or a visible file's "
@@ -121,7 +122,16 @@ def case(draw):
             cur = apply_model(copy.deepcopy(cur), e)
             edits.append(e)
         steps.append(edits)
-    return {"tree": tr, "steps": steps, "structure": draw(st.booleans()),
+    # the node's declaration may be edited between builds: tree <-> structure, or another pattern list
+    # (one switch per history at most, at a generated step)
+    switch = None
+    if draw(st.integers(0, 3)) == 0:
+        at = draw(st.integers(0, len(steps) - 1))
+        if draw(st.booleans()):
+            switch = {"at": at, "kind": True}
+        else:
+            switch = {"at": at, "patterns": draw(st.lists(st.sampled_from(PATTERNS), min_size=0, max_size=2, unique=True))}
+    return {"tree": tr, "steps": steps, "structure": draw(st.booleans()), "switch": switch,
             "patterns": draw(st.lists(st.sampled_from(PATTERNS), min_size=0, max_size=2, unique=True)) if draw(st.booleans()) else [],
             "jobs": draw(st.sampled_from([None, 4])),
             "fs": draw(st.sampled_from(["default", "default", "device-agnostic", "checksum-only"])),
@@ -302,20 +312,24 @@ def run_case(case, ctx, verbose=False):
     try:
         disk = Disk(ws, "tree")
         disk.create(case["tree"])
-        node_attrs = {}
-        if case["structure"]:
-            node_attrs["is-directory-structure"] = True
-        if case["patterns"]:
-            node_attrs["content-exclusion-patterns"] = case["patterns"]
-        desc = {"commands": [{"name": "CC", "tool": "shell", "inputs": ["tree/"], "outputs": ["out"],
-                              "args": [bm.VTOOL, "CC", "--out", "out"]}],
-                "targets": {"t": ["out"]}, "default": "t"}
-        if node_attrs:
-            desc["nodes"] = {"tree/": node_attrs}
         fs = case.get("fs", "default")
-        if fs != "default":
-            desc["file_system"] = fs
-        bm.write_description(ws, desc)
+        case = dict(case)          # 'structure' and 'patterns' follow the declaration as it is edited
+
+        def declare():
+            node_attrs = {}
+            if case["structure"]:
+                node_attrs["is-directory-structure"] = True
+            if case["patterns"]:
+                node_attrs["content-exclusion-patterns"] = case["patterns"]
+            desc = {"commands": [{"name": "CC", "tool": "shell", "inputs": ["tree/"], "outputs": ["out"],
+                                  "args": [bm.VTOOL, "CC", "--out", "out"]}],
+                    "targets": {"t": ["out"]}, "default": "t"}
+            if node_attrs:
+                desc["nodes"] = {"tree/": node_attrs}
+            if fs != "default":
+                desc["file_system"] = fs
+            bm.write_description(ws, desc)
+        declare()
         r = ws.build(target="t", jobs=case["jobs"])
         if not r.ok:
             return Outcome("first build failed: %s %s" % (r.errors(), r.stderr[-300:]))
@@ -325,10 +339,24 @@ def run_case(case, ctx, verbose=False):
         cls = ["structure" if case["structure"] else "tree"] + (["patterns"] if case["patterns"] else []) + ["fs:" + fs]
         nt = False
         pending_mode = False
-        for edits in case["steps"]:
+        switch = case.get("switch")
+        for stepno, edits in enumerate(case["steps"]):
             vis0, full0 = disk.snapshot(case["patterns"])
             for e in edits:
                 disk.apply(e)
+            switched = None
+            if switch and switch["at"] == stepno:
+                if switch.get("kind"):
+                    case["structure"] = not case["structure"]
+                    switched = "kind"
+                    pending_mode = False
+                elif switch["patterns"] != case["patterns"]:
+                    case["patterns"] = switch["patterns"]
+                    switched = "patterns"
+                if switched:
+                    declare()
+                    cls.append("declaration-edited:" + switched)
+                    cls[0] = "structure" if case["structure"] else "tree"
             vis1, full1 = disk.snapshot(case["patterns"])
             r = ws.build(target="t", jobs=case["jobs"])
             if r.timed_out or r.crashed():
@@ -368,6 +396,13 @@ def run_case(case, ctx, verbose=False):
                 must_not = vis0 == vis1 and dirstat0 == dirstat1
                 if fs == "checksum-only" and not must:
                     must_not = nomode(vis0) == nomode(vis1) and {p: v[0] for p, v in full0.items()} == {p: v[0] for p, v in full1.items()}
+            if switched == "kind":
+                # what a tree node and a structure node observe is not comparable: this one build is don't-care
+                must = must_not = False
+            elif switched == "patterns":
+                # (vis0 was taken under the old patterns, vis1 under the new ones: `must` already compares what
+                # the command could see before with what it can see now); not re-running is never demanded
+                must_not = False
             verdict = "must" if must else "must-not" if must_not else "dont-care"
             cls.append(verdict)
             deep = any((e.get("path") or e.get("dir", "")).count("/") >= 1 for e in edits)
